@@ -271,7 +271,10 @@ func genLoops() (out []tableCase) {
 			}
 		}
 		for k, d := range picks {
-			one := func() []*astits.Descriptor { x := *d; return fixLens([]*astits.Descriptor{&x, {Tag: 0x52, StreamIdentifier: &astits.DescriptorStreamIdentifier{ComponentTag: uint8(k)}}}) }
+			one := func() []*astits.Descriptor {
+				x := *d
+				return fixLens([]*astits.Descriptor{&x, {Tag: 0x52, StreamIdentifier: &astits.DescriptorStreamIdentifier{ComponentTag: uint8(k)}}})
+			}
 			what := fmt.Sprintf("%s[%d] in ", g.Name, k)
 			pm := &astits.PMTData{ProgramNumber: 1, PCRPID: 0x100, ProgramDescriptors: one(), ElementaryStreams: []*astits.PMTElementaryStream{{ElementaryPID: 0x100, StreamType: 2, ElementaryStreamDescriptors: one()}, {ElementaryPID: 0x101, StreamType: 3}}}
 			out = append(out, tableCase{What: "PMT " + what + "program and ES loops", PID: 0x1000, Secs: [][]byte{SecPMT(pm, ref.SecHdr{CNI: true})}, Exp: []ExpData{{Kind: "PMT", Table: pm}}, Hdrs: []ref.SecHdr{withIDs(ref.SecHdr{CNI: true}, 2, 1, true, false)}})
